@@ -79,6 +79,12 @@ func (c *Conn) readable() bool {
 }
 
 func (c *Conn) Read(p []byte) (int, error) {
+	if len(p) == 0 && !c.closed {
+		// like the net package: a zero-byte read returns at once, consumes
+		// nothing and never looks at the deadline
+		vs.Point("conn.read0", c.key())
+		return 0, nil
+	}
 	vs.Block("conn.read", c.key(), c.readable)
 	c.ReadCalls++
 	switch {
@@ -107,7 +113,25 @@ func (c *Conn) Read(p []byte) (int, error) {
 		}
 		copy(p, avail[:n])
 		r.off += n
+		short := n < len(avail) // the reader's buffer (or the chunk choice) ended this read
 		if c.Datagram || r.off == len(r.b) {
+			c.in = c.in[1:]
+			if c.OnConsumed != nil {
+				c.OnConsumed(r.id)
+			}
+		}
+		// a byte stream has no message boundaries: what the peer wrote in
+		// several writes and is already here is handed over in one read, as far
+		// as the reader's buffer goes (TCP coalescing)
+		for !c.Datagram && !short && n < len(p) && len(c.in) > 0 {
+			r = c.in[0]
+			avail = r.b[r.off:]
+			m := copy(p[n:], avail)
+			n += m
+			r.off += m
+			if r.off < len(r.b) {
+				break
+			}
 			c.in = c.in[1:]
 			if c.OnConsumed != nil {
 				c.OnConsumed(r.id)
